@@ -81,6 +81,7 @@ class UnitRun:
         self.cmd = ""
         self.stderr_tail = ""
         self.lost = []
+        self.unaccounted = []
 
 
 def _fn_at(build, text_lines, gen_line):
@@ -251,6 +252,7 @@ def run_unit(unit, variant, multiple_errors=20, extra_args=(), rlimit=None, inli
         ur.failed.append({"id": oid, "fn": fn, "kind": kind, "message": msg, "gen_line": gl, "origin": where, "primary": is_primary,
                           "rendered": (d.get("rendered") or "")[:3000]})
     ur.lost = list(b.lost)
+    ur.unaccounted = list(getattr(b, "unaccounted", []))
     if undec and not ur.failed:
         ur.status, ur.reason = "undecided", "; ".join(undec)[:800]
     elif ur.failed:
